@@ -390,7 +390,7 @@ def check_threads(prop, tier, seed):
     with open(hpath, "w") as fh:
         for c in hjobs:
             fh.write(json.dumps(c) + "\n")
-    run([VH, "calls", "--cases", hpath, "--out", os.path.join(wd, "hist"), "--shards", str(NCPU), "--deadline-ms", "240000"], cwd=wd, timeout=7200)
+    run([VH, "calls", "--cases", hpath, "--out", os.path.join(wd, "hist"), "--shards", str(NCPU), "--deadline-ms", load_scaled(240000)], cwd=wd, timeout=7200)
     htraces = [os.path.join(wd, f"hist.{i}.ndjson") for i in range(NCPU)]
     log(f"[{prop}] call histories done ({time.time()-t0:.0f}s)")
     agg = aggregate(validate(traces + htraces, wd))
